@@ -717,6 +717,9 @@ func (vc *VC) resolveCallee(fromPkg *Pkg, info *types.Info, fn *types.Func, recv
 		}
 		key := origin.Pkg().Name() + "." + origin.Name()
 		ct := fromPkg.Contracts.Funcs[key]
+		if ct == nil && vc.ld.stdlib != nil {
+			ct = vc.ld.stdlib.Funcs[key]
+		}
 		if ct == nil || !ct.Trusted {
 			return nil
 		}
